@@ -644,7 +644,10 @@ def cascade_tables_model(ctx: Ctx):
     for with_ins in (False, True):
         model = _model(with_ins)
         items = model["items"]
-        want = {"_subvar_aliases": tuple(a for a, *_ in items), "_raw_element_ids": tuple(r for _a, r, *_ in items), "_subvar_ids": tuple(s for _a, _r, s, _i in items)}
+        want = {"_subvar_aliases": tuple(a for a, *_ in items), "_raw_element_ids": tuple(r for _a, r, *_ in items), "_subvar_ids": tuple(s for _a, _r, s, _i in items),
+                # the "MR with inserted items" special case is switched by what the DIMENSION carries (its view's insertions are
+                # its derived items), whatever the analysis transforms list - here an empty "insertions" list
+                "_has_mr_insertion": (with_ins,)}
         for member, expected in want.items():
             m = ctx.repo.lookup(ci, member)
             if m is None or m.kind not in ("lazyproperty", "property"):
@@ -654,6 +657,8 @@ def cascade_tables_model(ctx: Ctx):
                 t = u(e)
                 if t == "self._dimension_dict":
                     return model["dimension_dict"]
+                if t == "self._dimension_transforms_dict":
+                    return {"insertions": []}
                 if t == "self.dimension_type":
                     return "MR_SUBVAR"
                 if isinstance(e, ast.Attribute) and isinstance(e.value, ast.Name) and e.value.id == "DT":
@@ -672,13 +677,15 @@ def cascade_tables_model(ctx: Ctx):
                 undec = f"{member}: {t_}"
                 continue
             n += 1
+            if member == "_has_mr_insertion":
+                got = (bool(got),)
             if tuple(got) != expected:
                 bad.append(f"{member} ({'with' if with_ins else 'without'} inserted items) = {tuple(got)!r}, the items' own values are {expected!r}")
     ctx.count("id tables executed over the model", n)
     where = f"{DIM}::_ElementIdShim [_subvar_aliases, _raw_element_ids, _subvar_ids]"
     if bad:
         ctx.violated("cascade.tables.model", where, "; ".join(bad[:3]), "each table lists the alias / element id / value.id of every item in payload order", "a spelling of the blanked items resolves to nothing or to another item")
-    elif undec or n < 6:
+    elif undec or n < 8:
         ctx.undecided("cascade.tables.model", where, "DECTAB: " + str(undec), "each table lists its value for every item")
     else:
         ctx.held("cascade.tables.model", where, f"{n} (table, model) evaluations", "each table lists the alias / element id / value.id of every item in payload order")
